@@ -311,7 +311,10 @@ def check(run: Run) -> None:
         run.sites(n_guard, 3, "guarded record_target_modified after a forwarding (un)bind")
 
     with run.obligation("C04.j", "K1", "a consumer's child view reports the child's own last_modified_time: the link time is blended in only at the root of a link (the "
-                        "input accessor tables, shared with C13.c)"):
+                        "input accessor tables, shared with C13.c); the sampled-rebind shortcut of delta_value (`the delta IS the current value`) is taken only at the link root and "
+                        "only in the cycle of the rebind (link time == this cycle), the guards modified() uses for the same link record - children of a peered composite share the "
+                        "ROOT link's record and the record stays newer than an old target until that target ticks again, so an unkeyed test makes a delta readable in cycles "
+                        "that did not produce it (found F-C04-2, fixed)"):
         from . import c13
         R.share(run, "C04.j", c13, ["C13.c"])
 
